@@ -77,7 +77,18 @@ where
             }) {
                 Err(e) => v(&mut out, ty, "coordinates", "panic", format!("panicked: {e}"), ctx()),
                 Ok(None) if !is_id => v(&mut out, ty, "coordinates", "none-for-point", "coordinates() is None for a non-identity point".into(), ctx()),
-                Ok(Some((x, y))) if is_id => v(&mut out, ty, "coordinates", "identity-not-none", "coordinates() of the identity is Some although the trait documents None".into(), json!({"P": pa.name, "x": x.iter().map(big::hexs).collect::<Vec<_>>(), "y": y.iter().map(big::hexs).collect::<Vec<_>>()})),
+                // The library's convention (relied upon by the circuits) is identity <-> (0, 0); the
+                // property only asks accessors and constructors to be mutually consistent, so
+                // Some((0,0)) for the identity is accepted (it used to be flagged: false alarm,
+                // see DESIGN.md). Any other coordinates for the identity are a violation.
+                Ok(Some((x, y))) if is_id => {
+                    let zero = |c: &Vec<num_bigint::BigUint>| c.iter().all(|l| *l == num_bigint::BigUint::from(0u32));
+                    if zero(&x) && zero(&y) {
+                        out.count("coordinates:identity-as-(0,0)", 1);
+                    } else {
+                        v(&mut out, ty, "coordinates", "identity-has-nonzero-coordinates", "coordinates() of the identity is neither None nor (0,0)".into(), json!({"P": pa.name, "x": x.iter().map(big::hexs).collect::<Vec<_>>(), "y": y.iter().map(big::hexs).collect::<Vec<_>>()}))
+                    }
+                }
                 Ok(Some((x, y))) => {
                     if MP::At(x, y) != pa.m {
                         v(&mut out, ty, "coordinates", "wrong-result", "coordinates() disagree with x()/y()".into(), ctx());
@@ -208,7 +219,15 @@ where
         out.eval("from_xy:(0,0)", true);
         match catch(|| Option::<C::AffineExt>::from(<C::AffineExt as CurveAffine>::from_xy(B::Base::ZERO, B::Base::ZERO)).map(|q| B::a_to_m(&q))) {
             Err(e) => v(&mut out, ty, "from_xy", "panic", format!("panicked on (0,0): {e}"), json!({})),
-            Ok(Some(m)) => v(&mut out, ty, "from_xy", "accepts-(0,0)", "from_xy(0, 0) succeeds although (0,0) does not satisfy the curve equation (it is the in-memory identity)".into(), json!({"got": m.json()})),
+            // (0,0) is the library's encoding of the identity: returning the identity is consistent
+            // with coordinates(); returning any other point would not be.
+            Ok(Some(m)) => {
+                if m == MP::Inf {
+                    out.count("from_xy:(0,0)-is-identity", 1);
+                } else {
+                    v(&mut out, ty, "from_xy", "(0,0)-gives-non-identity", "from_xy(0, 0) returns a point other than the identity".into(), json!({"got": m.json()}))
+                }
+            }
             Ok(None) => {}
         }
         // ---- new_jacobian at infinity: (1, 1, 0) is the Jacobian point at infinity
